@@ -252,10 +252,13 @@ def run_case(socketutil, errors, case):
         else:
             payload = b"".join(block(i, B) for i in range(n))
             # the buffer is handed over as bytes, as a bytearray, as a view of bytes or - where its length allows - as a view of
-            # items wider than a byte
+            # items wider than a byte, or as an array of such items
             ROT[0] += 1
-            form = ROT[0] % 4
-            if form == 1:
+            form = ROT[0] % 5
+            if form == 4 and len(payload) % 4 == 0 and payload:
+                import array
+                payload = array.array("I", payload)        # a buffer of wide items that is not a view (an array, as numeric code has them)
+            elif form == 1:
                 payload = bytearray(payload)
             elif form == 2:
                 payload = memoryview(payload)
